@@ -107,6 +107,9 @@ def plugins_for(cfg):
         ps.append(NullDeletePlugin())
     if cfg.get('tracker'):
         ps.append(PropertyModTrackerPlugin())
+    if cfg.get('activity'):
+        from sqlalchemy_continuum.plugins import ActivityPlugin
+        ps.append(ActivityPlugin())
     return ps
 
 
@@ -143,6 +146,10 @@ def reflect_cfg(env, cfg):
         strategy = vo.get('strategy', env.manager.options['strategy']) if versioned else 'subquery'
         out.append(dict(name=cls.__name__, versioned=versioned, validity=(strategy == 'validity'),
                         tab=ci, cols=cols, rels=rels))
+    if cfg.get('activity'):
+        # pending Activity objects make the session count as modified (ActivityPlugin.is_session_modified):
+        # they are recorded as objects of a pseudo class that has no columns and never gets events
+        out.append(dict(name='Activity', versioned=True, validity=False, tab=len(out), cols=[], rels=[]))
     return out
 
 
@@ -343,8 +350,12 @@ class Recorder(object):
             ci, colchg, relchg = self._flags(o)
             objs.append(dict(cls=ci, colchg=colchg, relchg=relchg,
                              new=o in session.new, deleted=o in session.deleted))
-        for o in session.deleted:
-            pass
+        act_cls = getattr(self.env.manager, 'activity_cls', None) if self.cfg.get('activity') else None
+        if act_cls is not None:
+            for o in list(session):
+                if isinstance(o, act_cls):
+                    objs.append(dict(cls=len(self.classes), colchg=[], relchg=[], new=o in session.new,
+                                     deleted=o in session.deleted))
         self.cur = dict(ev='flush', objs=objs, ents=[], assoc=[], _pending=[])
 
     def _mapper_listener(self, kind):
@@ -480,7 +491,18 @@ class Recorder(object):
         vt.sort(key=lambda r: (r['tab'], json.dumps(r['key'], default=str), r['tx']))
         av.sort(key=lambda r: (r['tab'], r['key'], r['tx']))
         alive.sort(key=lambda r: (r['tab'], r['key']))
-        return dict(live=live, vt=vt, av=av, alive=alive, tx=txs, chg=chg,
+        acts = []
+        if env.versioned and self.cfg.get('activity') and 'activity' in env.Base.metadata.tables:
+            at = env.Base.metadata.tables['activity']
+            names = [c.__name__ for c in self.classes]
+            for row in conn.execute(sa.select(at)).mappings():
+                acts.append(dict(id=row['id'], tx=row['transaction_id'],
+                                 ocls=names.index(row['object_type']) if row['object_type'] in names else None,
+                                 oid=row['object_id'], otx=row['object_tx_id'],
+                                 tcls=names.index(row['target_type']) if row['target_type'] in names else None,
+                                 tid=row['target_id'], ttx=row['target_tx_id']))
+            acts.sort(key=lambda a: a['id'])
+        return dict(live=live, vt=vt, av=av, alive=alive, tx=txs, chg=chg, acts=acts,
                     uows=len(env.manager.units_of_work) if env.versioned else 0,
                     smap=len(env.manager.session_connection_map) if env.versioned else 0)
 
@@ -510,6 +532,7 @@ def run_program(env, cfg, prog, record=True, plain=False):
     rec = Recorder(env, cfg, s) if record else None
     refs = {}
     outcomes = []
+    kept_activities = []
     classes = env.classes
 
     def lookup(c, key):
@@ -617,6 +640,19 @@ def run_program(env, cfg, prog, record=True, plain=False):
                             rec.trace.append(ev)
                             rec.snaps.append(rec.snapshot())
                         rec.raw_pending = []
+                elif kind == 'activity':
+                    # ['activity', verb, [cls, key], [cls, key] | None]; the application keeps the reference
+                    Act = env.manager.activity_cls
+                    o = lookup(op[2][0], op[2][1])
+                    t = lookup(op[3][0], op[3][1]) if op[3] else None
+                    if o is None or (op[3] and t is None):
+                        outcomes.append('skip')
+                        continue
+                    a = Act(verb=op[1], object=o)
+                    if t is not None:
+                        a.target = t
+                    s.add(a)
+                    kept_activities.append(a)
                 elif kind == 'flush':
                     s.flush()
                 elif kind == 'query':
@@ -763,11 +799,18 @@ def g_snap(sn, ccfg):
 
     def ga(r):
         return '(mka %s %s %s %s)' % (gZ(r['tab']), glist(r['key']), gZ(r['tx']), gZ(r['op']))
-    return '(mksnap %s %s %s %s %s %s %s)' % (
+    def gact(a):
+        def ref(c, i, t):
+            if c is None or i is None:
+                return 'None'
+            return '(Some (%s, %s, %s))' % (gnat(c), gZ(i), gopt(t))
+        return '(mkact %s %s %s %s)' % (gZ(a['id']), gopt(a['tx']), ref(a['ocls'], a['oid'], a['otx']),
+                                        ref(a['tcls'], a['tid'], a['ttx']))
+    return '(mksnap %s %s %s %s %s %s %s %s)' % (
         glist(sn['live'], glive), glist(sn['vt'], gv), glist(sn['av'], ga),
         glist(sn['alive'], lambda r: '(%s, %s)' % (gZ(r['tab']), glist(r['key']))),
         glist(sn['tx']), glist(sn['chg'], lambda c: '(%s, %s)' % (gZ(c[0]), gnat(c[1]))),
-        gnat(sn['uows'] + sn['smap']))
+        gnat(sn['uows'] + sn['smap']), glist(sn.get('acts', []), gact))
 
 
 def twin_diffs(obs):
